@@ -26,7 +26,8 @@ from ..core import Check, MachineryFailure
 
 SPEC = 'SharesIndex/SharesIndex.tla'
 TRACE = 'SharesIndex/SharesIndexTrace.tla'
-ACTIONS = ['Add', 'Remove', 'Update', 'Scan', 'ScanAll', 'ScanBegin', 'ScanBeginAll', 'ScanEnd', 'Load', 'DiskCreate', 'DiskDelete', 'Touch', 'Collect']
+ACTIONS = ['Add', 'Remove', 'Update', 'Scan', 'ScanAll', 'ScanBegin', 'ScanBeginAll', 'ScanEnd', 'Load',
+           'DiskRemoveDir', 'Hold', 'Release', 'DiskCreate', 'DiskDelete', 'Touch', 'Collect']
 MT0 = 1_000_000          # mtime of version v is MT0 + v
 
 # ---------------------------------------------------------------------------
@@ -356,17 +357,47 @@ class PlanBuilder:
                 plan['init'].append([p, int(x['v'])])
         shared: set[str] = set()
         inflight = False
+        on_disk = {p for p, _ in plan['init']}
+        # environment choices added to the behaviour (all of them are actions of the model, enabled at any
+        # time): the application keeps the items it was given across later operations and drops them
+        # afterwards; a whole directory vanishes from disk before a rescan
+        hold_mode = rng.random() < 0.45
+        rmdir_mode = rng.random() < 0.4
+        holding = False
+
+        def rmdir(d):
+            gone = [p for p in on_disk if p.startswith(d + '/')]
+            on_disk.difference_update(gone)
+            plan['ops'].append(dict(op='rmdir', d=d))
+
         for lab in labels:
             name, a = parse_label(lab)
+            if rmdir_mode and name in ('Scan', 'ScanAll', 'ScanBegin', 'ScanBeginAll') and rng.random() < 0.45:
+                cands = sorted({p.rsplit('/', 1)[0] for p in on_disk}) or plan['dirs']
+                full = rng.choice(cands).split('/')
+                rmdir('/'.join(full[:rng.randint(1, len(full))]))
             if name == 'DiskCreate':
                 for p in self.replicas_of(a[0]):
-                    plan['ops'].append(dict(op='create', f=p, v=int(a[1])))
+                    if p not in on_disk:
+                        on_disk.add(p)
+                        plan['ops'].append(dict(op='create', f=p, v=int(a[1])))
             elif name == 'Touch':
                 for p in self.replicas_of(a[0]):
-                    plan['ops'].append(dict(op='touch', f=p, v=int(a[1])))
+                    if p in on_disk:            # (an added 'rmdir' may have taken it away)
+                        plan['ops'].append(dict(op='touch', f=p, v=int(a[1])))
             elif name == 'DiskDelete':
                 for p in self.replicas_of(a[0]):
-                    plan['ops'].append(dict(op='delete', f=p))
+                    if p in on_disk:
+                        on_disk.discard(p)
+                        plan['ops'].append(dict(op='delete', f=p))
+            elif name == 'DiskRemoveDir':
+                rmdir(self.dirpath(a[0]))
+            elif name == 'Hold':
+                holding = True
+                plan['ops'].append(dict(op='hold', queries=self.battery()[:2]))
+            elif name == 'Release':
+                holding = False
+                plan['ops'].append(dict(op='release', queries=self.battery()))
             elif name in ('Add', 'Remove', 'Update', 'Scan'):
                 d = self.dirpath(a[0])
                 if name == 'Add':
@@ -398,8 +429,17 @@ class PlanBuilder:
                 d = rng.choice(plan['dirs'])
                 op = 'add' if d in shared else rng.choice(['remove', 'update'])
                 plan['ops'].append(dict(op=op, d=d, how='str', queries=self.battery()[:2]))
+            if hold_mode:
+                if not holding and name in ('Scan', 'ScanAll', 'ScanEnd') and rng.random() < 0.7:
+                    holding = True
+                    plan['ops'].append(dict(op='hold', queries=self.battery()[:2]))
+                elif holding and name in ('Scan', 'ScanAll', 'ScanEnd', 'Remove', 'Load', 'Add') and rng.random() < 0.6:
+                    holding = False
+                    plan['ops'].append(dict(op='release', queries=self.battery()))
         if inflight:        # the behaviour stopped with a scan in flight: let it finish
             plan['ops'].append(dict(op='scanend', queries=self.battery()))
+        if holding and hold_mode:
+            plan['ops'].append(dict(op='release', queries=self.battery()))
         return plan
 
 
@@ -478,6 +518,7 @@ class Executor:
         network = AsyncMock()
         manager = SharesManager(settings, bus, network)
         held = []                 # directory objects a caller would still hold
+        kept = []                 # items the application was given and still holds ('hold' .. 'release')
         told = []                 # counts announced by a completed scan(): event + report to the server
 
         async def on_scan_complete(event):
@@ -513,7 +554,7 @@ class Executor:
             except Exception:
                 return dict(f=[[UNKNOWN]], own=[], v=-1, q=[UNKNOWN])
 
-        def observe(queries):
+        def observe(queries, keep=None):
             dirs, items = [], []
             for d in list(manager.shared_directories):
                 if not any(d is h for h in held):
@@ -540,6 +581,9 @@ class Executor:
                 try:
                     visible, locked = manager.query(q)
                     res = [item_key(it) for it in visible] + [item_key(it) for it in locked]
+                    if keep is not None:
+                        keep.extend(visible)
+                        keep.extend(locked)
                     del visible, locked
                 except Exception as e:  # an observation, judged by the trace spec
                     exc = type(e).__name__
@@ -554,6 +598,11 @@ class Executor:
 
         for op in plan['ops']:
             kind = op['op']
+            if kind == 'rmdir':
+                p = os.path.join(root, op['d'])
+                shutil.rmtree(p, ignore_errors=True)
+                events.append(dict(ev='rmdir', d=self.comps(root, p)))
+                continue
             if kind in ('create', 'touch', 'delete'):
                 p = os.path.join(root, op['f'])
                 if kind == 'delete':
@@ -630,6 +679,13 @@ class Executor:
                 elif kind == 'collect':
                     held.clear()
                     gc.collect()
+                elif kind == 'hold':
+                    # what the application was given: the listing of the shared directories (and, below,
+                    # the answers to this step's queries)
+                    for d in list(manager.shared_directories):
+                        kept.extend(d.items)
+                elif kind == 'release':
+                    kept.clear()
                 else:
                     raise MachineryFailure(f'unknown plan operation {kind}')
             except MachineryFailure:
@@ -637,7 +693,7 @@ class Executor:
             except Exception as e:  # raised by the code under test: an observation
                 ev['exc'] = type(e).__name__
             await vloop.settle(loop)
-            ev['obs'] = observe(op.get('queries', []))
+            ev['obs'] = observe(op.get('queries', []), keep=kept if kind == 'hold' else None)
             events.append(ev)
         if loop.unhandled:
             events.append(dict(ev='loop_exception', exc=str(loop.unhandled[0].get('message'))[:200]))
@@ -694,7 +750,8 @@ def name_failure(trace, at, prop, k, qinfo=None) -> tuple[str, str]:
     obs = ev.get('obs', {})
     opname = {'add': 'add_shared_directory', 'remove': 'remove_shared_directory', 'scan': 'scan_directory_files',
               'scanall': 'scan', 'load': 'load_from_settings', 'update': 'update_shared_directory',
-              'collect': 'garbage-collection', 'scanbegin': 'scan-start',
+              'collect': 'garbage-collection', 'scanbegin': 'scan-start', 'hold': 'application-keeps-items',
+              'release': 'application-releases-kept-items',
               'scanend': 'scan-completion'}.get(ev['ev'], ev['ev'])
     if prop in ('QueryExact', 'NoUnsharedResults'):
         qr = obs['queries'][k - 1]
@@ -997,6 +1054,8 @@ def run(chk: Check, args):
         'histories are sequential except that a scan may be split in two steps (the directory walk is held in the '
         'executor by loop.executor_gate and runs when released); while it is in flight only reads, disk changes and '
         'update_shared_directory happen - add/remove/load or a second scan during a scan are not exercised',
+        'between "hold" and "release" the application holds every item of the shared directories and the answers to '
+        'that step\'s queries (strong references); "rmdir" removes a directory tree with everything in it before a scan starts',
         'a removed directory object stays referenced until the "collect" step (the caller holds it, and the '
         'item<->directory reference cycle keeps it until the garbage collector runs)',
     ]
